@@ -108,6 +108,27 @@ def searches(repo, run, fn, idx):
         if not ok:
             run.report("C19.2", DS, c, "bisection over the recorded times in history order (kind %s): for a trajectory integrated backward the array is descending and the "
                                        "search answers with an end of the array" % (k,))
+    # the orientation that normalises the search must be the orientation of the RECORDED grid (the order the samples were taken in), not the configured
+    # span or the current step: integrate(t) can run against the declared span
+    from ..sym import inline_locals
+    env = inline_locals(fn)
+    for c in calls:
+        a0 = c.args[0] if c.args else None
+        if not (isinstance(a0, ast.BinOp) and isinstance(a0.op, ast.Mult)):
+            continue
+        for grid, factor in ((a0.left, a0.right), (a0.right, a0.left)):
+            if src(grid) != "self.t":
+                continue
+            f = factor
+            while isinstance(f, ast.Name) and f.id in env:
+                f = env[f.id]
+            attrs = {src(x) for x in ast.walk(f) if isinstance(x, ast.Attribute) and isinstance(x.value, ast.Name) and x.value.id == "self"}
+            ok = isinstance(f, ast.Call) and fname(f) == "sign" and attrs == {"self.t"}
+            run.judged(rid, "orientation factor of %s: %s" % (src(c)[:50], src(f)[:60]), ok=ok)
+            if not ok:
+                run.report("C19.2", DS, f if hasattr(f, "lineno") else c, "the orientation used to normalise the search is not taken from the recorded samples (it reads %s): "
+                                                                         "a run made against the declared span (integrate(t) backward on a forward span) is searched "
+                                                                         "with the wrong sign" % sorted(attrs - {"self.t"}))
     # nearest-sample idiom
     near = [c for c in ast.walk(fn) if isinstance(c, ast.Call) and fname(c) in ("argmin", "nanargmin")]
     for c in near:
